@@ -656,11 +656,21 @@ func (c *VCtx) release(fr *Frame, st *State, lock *Term, pos token.Pos) {
 	}
 	c.csCount++
 	if fr != nil && fr.contract != nil {
-		fr.unlocks++
-		c.runGhost(fr, st, fr.contract, fmt.Sprintf("unlock %d", fr.unlocks), nil)
+		// "unlock N": the N-th unlock call of the source in order of first execution; a deferred unlock that
+		// runs at several returns is one point, asserted at each of them
+		if fr.unlockSites == nil {
+			fr.unlockSites = map[token.Pos]int{}
+		}
+		ord, seen := fr.unlockSites[pos]
+		if !seen || !pos.IsValid() {
+			fr.unlocks++
+			ord = fr.unlocks
+			fr.unlockSites[pos] = ord
+		}
+		c.runGhost(fr, st, fr.contract, fmt.Sprintf("unlock %d", ord), nil)
 		if fr.contract.Asserts != nil {
 			// assertions at "unlock N": the state in which the critical section ends (csold() = where it began)
-			c.pointAsserts(fr, st, fmt.Sprintf("unlock %d", fr.unlocks), pos)
+			c.pointAsserts(fr, st, fmt.Sprintf("unlock %d", ord), pos)
 		}
 	}
 	if len(h.specs) > 0 && h.specs[0].entry != nil && !(h.specs[0].owned && len(st.held) > 1) {
